@@ -3,6 +3,7 @@ package message
 import (
 	"encoding/binary"
 
+	"github.com/free5gc/ike/internal/verifhook"
 	"github.com/pkg/errors"
 )
 
@@ -58,6 +59,7 @@ func (d *Delete) Unmarshal(b []byte) error {
 		b = b[4:]
 		var spi uint32
 		for i := 0; i+4 <= len(b); i += 4 {
+			verifhook.At("message.delete.spi", len(b)-i)
 			spi = binary.BigEndian.Uint32(b[i : i+4])
 			d.SPIs = append(d.SPIs, spi)
 		}
